@@ -1706,7 +1706,9 @@ func (r *Raft) sendInstallSnapshot(id, address string) {
 	response, err := r.transport.SendInstallSnapshot(address, request)
 	r.mu.Lock()
 
-	if follower.snapshot == nil || err != nil {
+	// Quit if the RPC failed or this node is not the leader anymore. In particular, a response
+	// that arrives while this node is being stopped must not put it back into the follower state.
+	if follower.snapshot == nil || err != nil || r.state != Leader {
 		return
 	}
 
